@@ -38,7 +38,11 @@
                        attached to the stream, none of its loops is left, and the files below the
                        recording directory do not change any more, whatever is written to the stream.
    "At rest" (quiescent): every loop of the recorder is parked and no timer shorter than the run is
-   pending. S5..S7 are liveness requirements evaluated at rest (liveness-at-quiescence).
+   pending. S5..S7 are liveness requirements evaluated at rest (liveness-at-quiescence); on logs of the
+   real recorder they, S4 and the "no loop is left" part of S8 are judged only on observations marked sure (confirmed as provably stuck: the same
+   blocking waits in five further goroutine dumps over two seconds, a pending Close blocked on r.done);
+   the harness confirms every observation that would make one of them false before it logs it, and an
+   observation that does not survive the confirmation was not at rest (the harness keeps waiting).
 
    Layer 1 is code-shaped: one action per critical section / select branch of the three loops
    (supervisor Recorder.run, recorderInstance.run, stream.Reader.run executing the format's OnData
@@ -57,7 +61,7 @@
    Events (uniform records): init(a = long|short), w(a = unit kind), fault(a), closecall, closeret(fs),
    create(p), complete(p), rec (an instance started), err (an instance reported an error),
    q (observation at rest: r readers attached, g reader loops, ig instance loops, sg supervisor loops,
-   cp Close pending, fs file system version), peek (r sampled at an arbitrary moment).
+   cp Close pending, fs file system version, sure: confirmed as provably at rest), peek (r sampled at an arbitrary moment).
    Units: n regular (one part duration after the previous one), j a jump of more than the segment
    duration (forces a segment switch), d regular but with the absolute time jumped by 10 s (drift),
    b regular but larger than the maximum part size. A unit is "full" when it was written while the
@@ -74,7 +78,7 @@ CONSTANTS MaxW,        \* units written per behaviour
           CanObserve,  \* observations at rest are steps of the behaviour (q events)
           ObsFirst     \* at rest the harness observes before it acts (keeps the history model small)
 
-NoEv == [k |-> "-", a |-> "", p |-> 0, r |-> 0, g |-> 0, ig |-> 0, sg |-> 0, cp |-> FALSE, fs |-> 0]
+NoEv == [k |-> "-", a |-> "", p |-> 0, r |-> 0, g |-> 0, ig |-> 0, sg |-> 0, cp |-> FALSE, fs |-> 0, sure |-> FALSE]
 E(k, a, p) == [NoEv EXCEPT !.k = k, !.a = a, !.p = p]
 
 Delay(fm) == IF fm = "mpegts" THEN 0 ELSE 1
@@ -195,18 +199,18 @@ Holds(mon, ev, i) ==
             /\ e.k \in {"q", "peek"} => e.r <= 1
             /\ e.k = "q" => e.g <= 1 /\ e.ig <= 1 /\ e.sg <= 1
       [] mon = "SegmentClosed" ->
-            (e.k = "q" /\ OpenAt(ev, i) > 0) =>
+            (e.k = "q" /\ e.sure /\ OpenAt(ev, i) > 0) =>
                 /\ \A j \in LastCreate(ev, i)..i : ev[j].k # "err"
                 /\ e.r = 1
       [] mon = "Restarts" ->
-            (/\ e.k = "q"
+            (/\ e.k = "q" /\ e.sure
              /\ \A j \in 1..i : ev[j].k \notin {"closecall", "closeret"}
              /\ ~(LongPause(ev) /\ \E j \in 1..i : ev[j].k = "err")) => e.r = 1 /\ e.g = 1
       [] mon = "Recorded" ->
-            (/\ e.k = "q" /\ Healthy(ev, i) /\ RegularSince(ev, i) >= 4
+            (/\ e.k = "q" /\ e.sure /\ Healthy(ev, i) /\ RegularSince(ev, i) >= 4
              /\ ~(LongPause(ev) /\ \E j \in 1..i : ev[j].k = "err")) => OpenAt(ev, i) = 1 /\ e.r = 1
       [] mon = "ClosePrompt" ->
-            e.k = "q" => ~e.cp
+            (e.k = "q" /\ e.sure) => ~e.cp
       [] mon = "CloseBalanced" ->
             LET c == CloseRetAt(ev) IN i = c => OpenAt(ev, c) = 0
       [] mon = "CloseSilent" ->
@@ -214,7 +218,7 @@ Holds(mon, ev, i) ==
       [] mon = "CloseDetached" ->
             LET c == CloseRetAt(ev) IN
             (c > 0 /\ i > c) => /\ e.k \in {"q", "peek"} => e.r = 0
-                                /\ e.k = "q" => e.g = 0 /\ e.ig = 0 /\ e.sg = 0
+                                /\ (e.k = "q" /\ e.sure) => e.g = 0 /\ e.ig = 0 /\ e.sg = 0
       [] mon = "CloseFiles" ->
             LET c == CloseRetAt(ev) IN (c > 0 /\ i > c /\ e.k = "q") => e.fs = ev[c].fs
 
@@ -262,7 +266,7 @@ QEv == [NoEv EXCEPT !.k = "q", !.r = readers,
                     !.g = IF inst = "reading" /\ ~rerr THEN 1 ELSE 0,
                     !.ig = IF inst \in {"reading", "unreg", "join"} THEN 1 ELSE 0,
                     !.sg = IF sup \in {"watch", "join", "pause", "start"} THEN 1 ELSE 0,
-                    !.cp = (phase = "closing"), !.fs = fsv]
+                    !.cp = (phase = "closing"), !.fs = fsv, !.sure = TRUE]
 
 \* the harness works at rest and looks before it acts
 MayAct == IF Quiescent THEN (obsd \/ ~ObsFirst) ELSE ~Discipline
